@@ -659,7 +659,35 @@ def op_mixed(c):
     return {"built": len(want), "want": want, "got": got, "dir_order": os.listdir(root)}
 
 
-OPS = {"mixed": op_mixed, "order": op_order, "registry": op_registry, "probe": op_probe, "detect": op_detect, "pick": op_pick,
+def op_collide(c):
+    """A custom 2.0 object type and a custom 2.1 observable type of the SAME name, both registered with the public
+    decorators (this changes the registries of the process: run in a worker of its own).  The 2.0 object's own
+    serialisation is handed back without a version, before and after the 2.1 registration."""
+    from stix2 import properties as P, v20, v21
+    name = c["name"]
+
+    @v20.CustomObject(name, [("name", P.StringProperty(required=True))])
+    class Obj20(object):
+        pass
+    o = Obj20(name="a", id="%s--c9bd2a4e-2b1c-4d3e-8f00-0123456789ab" % name,
+              created="2020-01-01T00:00:00.000Z", modified="2020-01-01T00:00:00.000Z")
+    text = o.serialize()
+
+    def back(**k):
+        try:
+            r = stix2.parse(text, **k)
+            return ["ok", "same-class" if type(r) is type(o) else clsname(type(r)), versions_of(type(r))]
+        except Exception as e:  # noqa: BLE001
+            return exc(e, json.loads(text))
+    before = back()
+
+    @v21.CustomObservable(name, [("name", P.StringProperty(required=True))], ["name"])
+    class Obs21(object):
+        pass
+    return {"text": text, "before": before, "after": back(), "after_named_20": back(version="2.0")}
+
+
+OPS = {"collide": op_collide, "mixed": op_mixed, "order": op_order, "registry": op_registry, "probe": op_probe, "detect": op_detect, "pick": op_pick,
        "idcheck": op_idcheck, "own": op_own, "bundle": op_bundle}
 
 try:
